@@ -214,12 +214,12 @@ Definition on_migration (s : sender) : sender :=
   upd s cc_invalidPacketNumber cc_invalidPacketNumber cc_invalidPacketNumber false (initCwnd s) (initMaxCwnd s) 0 (mds s)
       (hs_restart (hs s)) (pc s).
 
-(** SetMaxDatagramSize; [None] = the "congestion BUG" panic on a decrease. *)
+(** SetMaxDatagramSize; [None] = the "congestion BUG" panic on a decrease. The window is
+    re-floored to the new minimum: cwnd = max(cwnd, minCongestionWindow()). *)
 Definition set_mds (s : sender) (m : Z) : option sender :=
   if m <? mds s then None
   else
-    let is_min := cwnd s =? min_cwnd s in
-    Some (upd s (ls s) (la s) (lc s) (exited s) (if is_min then m * cc_minCongestionWindowPackets else cwnd s)
+    Some (upd s (ls s) (la s) (lc s) (exited s) (Z.max (cwnd s) (m * cc_minCongestionWindowPackets))
               (ssthresh s) (nacked s) m (hs s) (pacer_set_mds (pc s) m)).
 
 Definition maybe_exit_ss (s : sender) (latest minrtt : Z) : sender :=
@@ -231,7 +231,8 @@ Definition maybe_exit_ss (s : sender) (latest minrtt : Z) : sender :=
 
 Definition on_sent (s : sender) (now pn bytes : Z) (retrans : bool) (srtt : Z) : sender :=
   let p' := sent_packet (pc s) now bytes (bw_est s srtt) in
-  if retrans then upd s pn (la s) (lc s) (exited s) (cwnd s) (ssthresh s) (nacked s) (mds s) (hs_on_sent (hs s) pn) p'
+  (* largestSentPacketNumber = max(largestSentPacketNumber, pn): packet numbers of all packet number spaces arrive here *)
+  if retrans then upd s (Z.max (ls s) pn) (la s) (lc s) (exited s) (cwnd s) (ssthresh s) (nacked s) (mds s) (hs_on_sent (hs s) pn) p'
   else upd s (ls s) (la s) (lc s) (exited s) (cwnd s) (ssthresh s) (nacked s) (mds s) (hs s) p'.
 
 Fixpoint ack_run (k : nat) (s : sender) (pn prior : Z) : sender :=
